@@ -47,7 +47,10 @@ pub fn run(ctx: &Ctx, out: &mut Out) {
         let (text, _ex, gr) = blanket_program(&mut rng);
         jobs.push((text, gr, false));
     }
-    for (text, goals, graph) in jobs {
+    for (jidx, (text, goals, graph)) in jobs.into_iter().enumerate() {
+        if !ctx.mine(jidx) {
+            continue;
+        }
         let (_db, program) = match lower_program(&text, chalk_integration::SolverChoice::slg_default()) {
             Ok(x) => x,
             Err(e) => {
@@ -95,6 +98,10 @@ pub fn run(ctx: &Ctx, out: &mut Out) {
             }
             for (name, choice) in solver_choices() {
                 let budget = if graph { Some(if name == "slg" { 2500 } else { 200_000 }) } else { None };
+                if !ctx.inflight(&format!("{} | {} | goal {{ {} }}", name, text.replace('\n', " "), gtext)) {
+                    out.count("skipped_crashed_earlier");
+                    continue;
+                }
                 let r = solve_fresh_budget(&text, &peeled, choice, budget);
                 let kind = answer_kind(&r);
                 out.count(&format!("{}_{}", name, kind));
